@@ -654,6 +654,9 @@ func (e *Enc) enterLoop(fr *Frame, li *LoopInfo, h *ssa.BasicBlock, inEdges []Te
 	}
 	reach := fr.reach[h]
 	for k, inv := range invs {
+		if !clauseActive(inv) {
+			continue
+		}
 		ctx := e.loopCtx(fr, li, h, entryPhi, in)
 		g := e.compileBool(ctx, inv.Expr)
 		o := e.addObl(fr, fmt.Sprintf("loop%d-entry", li.Ordinal), implies(reach, g), inv.Src, h.Instrs[0].Pos(), inv.Props)
@@ -761,6 +764,9 @@ func (e *Enc) enterLoop(fr *Frame, li *LoopInfo, h *ssa.BasicBlock, inEdges []Te
 	}
 	// assume invariants
 	for _, inv := range invs {
+		if !clauseActive(inv) {
+			continue
+		}
 		ctx := e.loopCtx(fr, li, h, hphi, st)
 		e.B.assume(implies(reach, e.compileBool(ctx, inv.Expr)))
 	}
@@ -794,10 +800,14 @@ func (e *Enc) checkBackEdge(fr *Frame, li *LoopInfo, from *ssa.BasicBlock, cond 
 		ov[phi] = e.val(fr, phi.Edges[pi])
 	}
 	for k, inv := range invs {
+		if !clauseActive(inv) {
+			continue
+		}
 		ctx := e.loopCtx(fr, li, h, ov, st)
 		g := e.compileBool(ctx, inv.Expr)
 		o := e.addObl(fr, fmt.Sprintf("loop%d-preserved", li.Ordinal), implies(cond, g), inv.Src, h.Instrs[0].Pos(), inv.Props)
 		o.Name = fmt.Sprintf("%s/loop%d-preserved#%d@b%d", contractName(e.top), li.Ordinal, k+1, from.Index)
+		o.Cases = mergeCases(fr, from, li)
 		if checkProp == "" || hasProp(o.Props, checkProp) {
 			e.B.assume(implies(cond, g))
 		}
@@ -909,4 +919,32 @@ func sortStrings(s []string) {
 			s[j], s[j-1] = s[j-1], s[j]
 		}
 	}
+}
+
+// mergeCases: the conditions of the forward edges merged at the nearest join at
+// or before block b (inside the loop): the state an obligation at b is stated
+// over is an ite-merge over exactly these conditions, so a goal the solvers
+// cannot decide as a whole is retried per case (check.go), each case having
+// its ite guards decided by unit propagation.
+func mergeCases(fr *Frame, b *ssa.BasicBlock, li *LoopInfo) []Term {
+	for steps := 0; steps < 4 && b != nil; steps++ {
+		if cs := fr.inConds[b]; len(cs) > 1 {
+			return cs
+		}
+		if li != nil && b == li.Header {
+			return nil
+		}
+		var next *ssa.BasicBlock
+		for _, p := range b.Preds {
+			if isBackEdge(p, b) {
+				continue
+			}
+			if next != nil {
+				return nil
+			}
+			next = p
+		}
+		b = next
+	}
+	return nil
 }
